@@ -85,7 +85,7 @@ def run_clique(tau):
     V = list(range(tau))
     E = [list(e) for e in itertools.combinations(V, 2)]
     tr = {"kind": "poly", "what": "clique_equation", "case": {"kind": "clique", "tau": tau}, "V": V, "E": E, "root": 0,
-          "terms": [], "malformed": False, "raised": ""}
+          "terms": [], "malformed": False, "raised": "", "zero_u": [], "one_u": []}
     try:
         with watchdog(120):
             val = gcmpy.clique_equation(tau, Poly.var("p"), [Poly.var("u%d" % v) for v in V[1:]])
